@@ -971,7 +971,9 @@ class OdeSystem(object):
         else:
             tf = self.tf
 
-        if D.ar_numpy.abs(tf - self.__t[self.counter]) < D.epsilon(self.__y[self.counter].dtype):
+        # a target within the resolution of the time axis counts as reached (the criterion of the integration loop below):
+        # returning here keeps dt intact, instead of halving it to a fraction of an ulp for a loop that never runs
+        if not np.isinf(D.ar_numpy.to_numpy(tf)) and D.ar_numpy.abs(tf - self.__t[self.counter]) < D.ar_numpy.maximum(D.tol_epsilon(self.__y[self.counter].dtype), 0.5 * D.epsilon(self.__y[self.counter].dtype) * D.ar_numpy.abs(tf)):
             return
         steps = 0
 
